@@ -128,6 +128,23 @@ void p_maybe_deliver(void)
 	}
 }
 
+/* optional delivery point right after a lock was acquired: a signal that the thread has not blocked may arrive
+ * while it holds the lock (a handler that takes the same lock then deadlocks on its own stack) */
+int p_lock_deliveries;
+void p_maybe_deliver_locked(void)
+{
+	int t = sx_tid();
+
+	if (!p_lock_deliveries || t >= PMAXT)
+		return;
+	if (((p_pending | p_tpending[t]) & ~p_sigmask[t]) == 0)
+		return;
+	if (sx_choose(2) == 1) {
+		sx_cover("env.signal-delivered-while-holding-a-lock");
+		deliver_one(t);
+	}
+}
+
 void sxm_async_deliver(void)
 {
 	int t = sx_tid();
